@@ -143,8 +143,16 @@ def line_assembly(ctx, R, P):
     adv = []
     for b in f.blocks.values():
         for el in b.elems:
-            if el["k"] == "bin" and el["op"] in ("=", "+=") and f.show(f.d(el["a"][0])) == "current_index":
-                adv.append(el)
+            if el["k"] == "bin" and el["op"] in ("=", "+="):
+                lhs = f.d(el["a"][0])
+                if lhs is not None and lhs["k"] == "un" and lhs["op"] == "deref":
+                    # a store through the out-parameter of an expanded helper that was handed &current_index
+                    tgt = RU.see_bound(f, f.d(lhs["a"][0]))
+                    tgt = RU.strip_addr(f, tgt) if tgt is not None else None
+                    if tgt is not None and f.show(tgt) == "current_index":
+                        adv.append(el)
+                elif lhs is not None and f.show(lhs) == "current_index":
+                    adv.append(el)
     rets = [x for b in f.blocks.values() for x in b.elems if x["k"] == "ret"]
     R.require(len(adv) >= 6, "only %d index updates found in %s" % (len(adv), F))
     try:
